@@ -1,9 +1,9 @@
 #!/usr/bin/env python3
-"""import_seed.py <prop> <n> <caught-by csv> [note]  — copies /tmp/wt/<prop>/SEED/<n> into /verif/seeded/<prop>-<n>/"""
+"""import_seed.py <prop> <n> <caught-by csv> [note] [srcdir]  — copies /tmp/wt/<prop>/SEED/<n> into /verif/seeded/<prop>-<n>/"""
 import sys, os, json, shutil
 prop, n, caught = sys.argv[1], sys.argv[2], sys.argv[3]
 note = sys.argv[4] if len(sys.argv) > 4 else ""
-src = f"/tmp/wt/{prop}/SEED/{n}"
+src = sys.argv[5] if len(sys.argv) > 5 else f"/tmp/wt/{prop}/SEED/{n}"
 dst = f"/verif/seeded/{prop}-{n}"
 os.makedirs(dst, exist_ok=True)
 for f in ("patch.diff", "demo.rs"):
